@@ -129,7 +129,7 @@ def check(ctx: Ctx) -> None:
                     go = (lambda n: range(n)) if order == "fwd" else (lambda n: list(reversed(range(n))))
                     states = {"1": F, "2": U, "3": K, "9": U, "10": F}
                     h = Harness(model, ch, rc={k: states[k] for k in set(keys)}, fc={f"90{k}": (k in ("1", "10"), f"m{k}") for k in set(keys)},
-                                hints={f"50{k}": f"text {k}" for k in set(keys)}, async_keys=tuple(async_keys) + tuple(f"90{k}" for k in async_keys), gather_order=go)
+                                hints={f"50{k}": ("" if k == "2" else f"text {k}") for k in set(keys)}, async_keys=tuple(async_keys) + tuple(f"90{k}" for k in async_keys), gather_order=go)
                     it = h.it
                     out = {}
                     try:
@@ -156,7 +156,7 @@ def check(ctx: Ctx) -> None:
                     out, states = outs[0][1], outs[0][2]
                     ok = (out["rc"] == {k: states[k] for k in keys}
                           and out["fc"] == {f"90{k}": (k in ("1", "10"), f"m{k}") for k in keys}
-                          and out["hints"] == {f"50{k}": (f"text {k}", f"50{k}") for k in keys})
+                          and out["hints"] == {f"50{k}": (("" if k == "2" else f"text {k}"), f"50{k}") for k in keys})
                     detail = out
                 ctx.ob("C12.align", f"{keys}:{order}:async={list(async_keys)}", ok,
                        f"evaluating keys {keys} ({order} schedule, async evaluators for {list(async_keys)}): {detail}; every key must be paired with its own value",
